@@ -76,6 +76,22 @@ CLAIMED["C20"] = ("other",
     "Trusted: clang 14 front end; LLVM sroa/early-cse; irx; the Python ownership engine; allocator/releaser vocabulary; named assumptions printed in the evidence (A-null-before:*, list-link).",
     "static analysis: allocation-site typestate search over the CFG, ownership inference from stores, cut-set reasoning per owning state on LLVM IR (custom checker)", "DESIGN.md §3 C20, §2 E6")
 
+CLAIMED["C17"] = ("proof",
+    "All obligations machine-discharged: the loop body of lha_crc16_buf is evaluated in a bit-level affine domain over GF(2) and its 24x16 matrix (16 state bits, 8 data bits -> 16 next-state bits) "
+    "equals that of the bitwise CRC-16/ARC step with zero constant term, which covers all 2^24 (state, byte) pairs without evaluating any; the lookup table is verified affine in its index, equal to "
+    "the table generated from 0xA001, never written and private to the routine; the routine is a left fold over buf[0..buf_len) from *crc to *crc with no other memory effect, so piecewise == whole; "
+    "every caller starts its accumulator at 0 and uses the raw value. Proof level is appropriate because the property is a finite linear-algebra identity plus a structural fold shape.",
+    "Trusted base: clang 14 front end; LLVM sroa/early-cse; irx; sa/lhsa/gf2.py and props/c17.py; the CRC-16/ARC definition encoded as gf2.crc16_arc_step. A rewrite of the routine that is not a byte-wise straight-line loop is reported unproven (counts as violation).",
+    "static analysis: abstract interpretation in a bit-level GF(2)-affine domain (matrix equality against the reference step) + SSA fold-shape rules (custom checker)", "DESIGN.md §3 C17, §2 E4")
+CLAIMED["C05"] = ("other",
+    "Static recovery of the header field-extraction tables from the IR (which header field is filled from which width at which offset, as linear forms over path length and data length) for the "
+    "level 0/1/2/3 decoders, the ten extended-header decoders, the level-0 Unix/OS-9 areas and the chain walker, compared with the reference tables of the LHA header format held by the checker; "
+    "the five endian decoders, the OS-9 permission mapping and the DOS date/time bit-fields are proven bit-exact by GF(2) bit-level evaluation; the extended-header registry is compared entry by "
+    "entry (types, decoders, min_len, reads within min_len). Claimed in part: decides the field wiring for all headers at once - the suite's sizes stay below 2^24, its dates below 2044 and it has "
+    "no 0x52/0x53 headers. Not decided: name normalisation (lower-casing), mktime's arithmetic, position of member data.",
+    "Trusted: clang 14 front end; LLVM sroa/early-cse; irx; gf2.py, lin.py and props/c05.py; the reference tables (DESIGN Appendix B) as the specification of the format.",
+    "static analysis: effect-signature recovery (stores to struct fields with linear offset forms) compared with reference tables + GF(2) bit-level evaluation on LLVM IR (custom checker)", "DESIGN.md §3 C05, Appendix B")
+
 NOT_APPLICABLE = {
     "C01": "decode exactness is an equality of runtime byte streams produced by table-driven Huffman state machines; no structural clause is a necessary condition the tests leave open (DESIGN §4)",
     "C02": "lock-step of the adaptive -lh1- tree with LZHUF is an equality over runtime symbol histories (tie-break order, rebuild threshold are value computations); not decidable by static analysis in reach (DESIGN §4)",
